@@ -394,6 +394,16 @@ def check_all(prop: str, pkg, opts, res) -> list:
                     got = stubparse.render_type(decl.type)
                     if want is not None and got != want:
                         fail("C05", f"property {q}: type {got!r}, expected {want!r}", decl=q, annotation=ann_src(f["ret"]))
+            # ---- C13: attribute descriptions (numpydoc / google "Attributes" sections)
+            if prop == "C13" and d["kind"] == "attr" and d["spec"].get("doc") and truth.plainly_public(d) \
+                    and opts.get("style") in ("numpydoc", "google"):
+                found = [x for loc in dict.fromkeys(locations(truth, d)) for x in stubs.decls.get(loc, [])]
+                if len(found) == 1:
+                    decl, path = found[0]
+                    mark = d["spec"]["doc"]
+                    if mark not in "\n".join(stubparse.doc_lines(decl.doc)):
+                        fail("C13", f"description of attribute {q} is missing from its documentation comment",
+                             decl=q, marker=mark)
             # ---- C13: documentation text reaches its element
             if prop == "C13" and d["spec"].get("doc") and truth.plainly_public(d) and d["kind"] in ("fun", "class", "enum", "prop"):
                 found = [x for loc in dict.fromkeys(locations(truth, d)) for x in stubs.decls.get(loc, [])]
